@@ -24,14 +24,14 @@ from saml2_tophat import md, saml, samlp, sigver, class_name
 from saml2_tophat.config import IdPConfig, SPConfig
 
 CLAIM = {
-    "text": "Coq theorems (Props/C03.v) over (1) the model of MetaData.certs and the certificate selection + per-certificate loop of _check_signature, for every federation, issuer, embedded certificate list and signing key: with only_use_keys_in_metadata on, a successful check implies the signer's key is a certificate of a key descriptor of the ISSUER's own entity whose use is signing or absent (exact characterisation of certs(): never an encryption-only descriptor, whatever the descriptor order; never another entity's); unknown issuer / no signing key => MissingKey even with an embedded certificate; foreign key => SignatureError; with the setting off the embedded certificates are used iff metadata yields none; (2) the model of the issuer-selection step of _check_signature (element's own Issuer, stripped, first; the issuer= argument only when the element names nobody) and of every call site with the argument it passes (correctly_signed_response / correctly_signed_message / _assertion: none; decrypt_assertions: none for response-level EncryptedAssertions, the enclosing assertion's Issuer for encrypted advice; direct callers: anything): the candidate certificates are those of the signed element's OWN Issuer whenever it has one, at every site and for every argument (C03_own_issuer_decides, C03_call_sites, C03_accepted_under_own_issuer); for a whole response document run through the entry point with its two retries (C03_document, induction over the assertion lists): every signed element of an accepted document - Response, plain assertion, assertion inside EncryptedAssertion, assertion inside encrypted Advice - was signed with a key trusted for ITS OWN issuer, an advice assertion without Issuer being the only element judged under another element's name; (3) histories (C03_history_*, induction over operation sequences on any set of long-lived clients, any starting state): the n-th outcome equals the outcome of that operation on that client alone. The loop is the C20 model instantiated with a tool that reports success iff the certificate holds the signer's key. Tie: generated federations x issuer x key x embedded x setting; places x outer issuer x own issuer x key x embedded x setting; direct calls x own x argument; seven message kinds; seeded operation sequences over five clients with conflicting metadata - each on implementation (real RSA through the stand-in, real ciphertexts) and model.",
+    "text": "Coq theorems (Props/C03.v) over (1) the model of MetaData.certs and the certificate selection + per-certificate loop of _check_signature, for every federation, issuer, embedded certificate list and signing key: with only_use_keys_in_metadata on, a successful check implies the signer's key is a certificate of a key descriptor of the ISSUER's own entity whose use is signing or absent (exact characterisation of certs(): never an encryption-only descriptor, whatever the descriptor order; never another entity's); unknown issuer / no signing key => MissingKey even with an embedded certificate; foreign key => SignatureError; with the setting off the embedded certificates are used iff metadata yields none. The model follows /repo + proposed_fix/C03-1 (MetaData.certs skips a key descriptor without X509Data); the code before it - KeyError for the whole entity, swallowed as 'no metadata certificates' - is refuted by C03_embedded_only_as_fallback_before_fix_refuted (an embedded foreign key trusted although metadata holds a signing key) and shown only needlessly strict under the default setting (C03_before_fix_default_setting); (2) the model of the issuer-selection step of _check_signature (element's own Issuer, stripped, first; the issuer= argument only when the element names nobody) and of every call site with the argument it passes (correctly_signed_response / correctly_signed_message / _assertion: none; decrypt_assertions: none for response-level EncryptedAssertions, the enclosing assertion's Issuer for encrypted advice; direct callers: anything): the candidate certificates are those of the signed element's OWN Issuer whenever it has one, at every site and for every argument (C03_own_issuer_decides, C03_call_sites, C03_accepted_under_own_issuer); for a whole response document run through the entry point with its two retries (C03_document, induction over the assertion lists): every signed element of an accepted document - Response, plain assertion, assertion inside EncryptedAssertion, assertion inside encrypted Advice - was signed with a key trusted for ITS OWN issuer, an advice assertion without Issuer being the only element judged under another element's name; (3) histories (C03_history_*, induction over operation sequences on any set of long-lived clients, any starting state): the n-th outcome equals the outcome of that operation on that client alone. The loop is the C20 model instantiated with a tool that reports success iff the certificate holds the signer's key. Tie: generated federations (17 key-descriptor layouts, 6 of them with KeyName / KeyValue-only descriptors) x issuer x key x embedded x setting; places x outer issuer x own issuer x key x embedded x setting; direct calls x own x argument; seven message kinds; seeded operation sequences over five clients with conflicting metadata - each on implementation (real RSA through the stand-in, real ciphertexts) and model.",
     "note": "Trusted: Coq kernel + vm_compute; hand-written models tied to the code by correspondence (exhaustive over the listed finite products in the thorough tier; the quick tier drops the listed slices); stand-in xmlsec1 verifies with the certificate file pysaml2 hands it; certificates are identified with their keys (cert n holds key n); certificate-chain validation (cert_handler) is off as in the default configuration; want_assertions_or_response_signed off (C02/C04); plain (unencrypted) assertions inside an Advice are not verified by the library at all and are outside the statement.",
     "technique": "machine-checked proof (Coq, induction over metadata lists, assertion lists and operation sequences) + correspondence over generated federations, documents and histories + oracle",
 }
-TRUSTED = ["modelled: MetaData.certs/extract_certs, MetadataStore.__getitem__ (first entity with the id), issuer selection, certificate selection and loop of SecurityContext._check_signature, the issuer= argument of every call site, the order of signature checks in correctly_signed_response / parse_assertion / decrypt_assertions and the two retries of Entity._parse_response",
+TRUSTED = ["modelled (as repaired by proposed_fix/C03-1): MetaData.certs/extract_certs, MetadataStore.__getitem__ (first entity with the id), issuer selection, certificate selection and loop of SecurityContext._check_signature, the issuer= argument of every call site, the order of signature checks in correctly_signed_response / parse_assertion / decrypt_assertions and the two retries of Entity._parse_response",
            "stand-in xmlsec1 (real RSA signatures and ciphertexts; key given on the command line only)"]
 ASSUMPTIONS = ["symbolic signature: verifies under a certificate iff it holds the signer's key and the content is unmodified"]
-RULE = ("(1) IdP-1 key-descriptor layouts (11) x claimed issuer {idp1, idp2, unknown, absent, prefix-of-idp1, upper-case idp1} x signing key {idp, idp2, other, sp2, sp} x embedded KeyInfo {signer's cert, none} x "
+RULE = ("(1) IdP-1 key-descriptor layouts (17, six of them with key descriptors that carry a KeyName / KeyValue and no X509Data) x claimed issuer {idp1, idp2, unknown, absent, prefix-of-idp1, upper-case idp1} x signing key {idp, idp2, other, sp2, sp} x embedded KeyInfo {signer's cert, none} x "
         "only_use_keys_in_metadata {on, off, unset}; (2) place {plain, encrypted, advice-of-plain, advice-of-encrypted} x outer (issuer, own signature) {idp1, idp2, unknown, idp1 signed, idp2 signed} x "
         "own issuer {idp1, idp2, unknown, absent, idp1 in white space} x key x embedded x clients {layout x setting}; (3) direct check_signature/_check_signature on assertion/response: own issuer (10 spellings) x "
         "issuer= argument (6) x key x embedded {own, none, issuer's real cert} x clients incl. one without metadata; (4) 7 message kinds x issuer x key x embedded x clients; (5) seeded operation sequences + all ordered "
@@ -51,7 +51,17 @@ LAYOUTS = {
     "useless+enc": [(None, ["idp"]), ("encryption", ["other"])],
     "none": [],
     "enc-only-other": [("encryption", ["other"])],
+    # key descriptors WITHOUT X509Data (certs == []: a KeyName / KeyValue only).  MetaData.certs has to skip them
+    # (proposed_fix/C03-1); before that repair certs() raised KeyError for the whole entity: MissingKey with the
+    # setting on, the embedded certificate trusted with the setting off although metadata holds a signing key
+    "sign+keyname": [("signing", ["idp"]), ("signing", [])],
+    "keyname+sign": [("signing", []), ("signing", ["idp"])],
+    "useless-keyname+sign+enc": [(None, []), ("signing", ["idp"]), ("encryption", ["other"])],
+    "keyname-only": [("signing", [])],
+    "enc-keyname+sign": [("encryption", []), ("signing", ["idp"])],
+    "sign+enc-keyname+useless-keyname": [("signing", ["idp", "other"]), ("encryption", []), (None, [])],
 }
+KEYNAME_LAYOUTS = [l for l, kds in LAYOUTS.items() if any(not certs for _, certs in kds)]
 IDP2_LAYOUT = [("signing", ["idp2"]), ("encryption", ["sp2"])]
 UNKNOWN_ID = "https://unknown.example.org/idp"
 ISSUERS = {"idp1": IDP_ID, "idp2": IDP2_ID, "unknown": UNKNOWN_ID, "absent": None,
@@ -62,6 +72,7 @@ SPELL = dict(ISSUERS, **{"idp1-ws": "\n  " + IDP_ID + "\t ", "idp2-nbsp": u" " 
 
 
 def idp_md(entity_id, layout):
+    from saml2_tophat import xmldsig as ds
     ed = md.entity_descriptor_from_string(env.cached_md("idp", env.idp_conf(), IdPConfig))
     ed.entity_id = entity_id
     kd0 = str(ed.idpsso_descriptor[0].key_descriptor[0])
@@ -71,12 +82,16 @@ def idp_md(entity_id, layout):
         kd.use = use
         x0 = str(kd.key_info.x509_data[0])
         xs = []
-        from saml2_tophat import xmldsig as ds
         for c in certs:
             x = ds.x509_data_from_string(x0)
             x.x509_certificate.text = env.cert_b64(c)
             xs.append(x)
         kd.key_info.x509_data = xs
+        if not xs:          # no X509Data at all: alternately a KeyName and an RSA KeyValue
+            if len(kds) % 2 == 0:
+                kd.key_info.key_name = [ds.KeyName(text="key-of-%s" % entity_id)]
+            else:
+                kd.key_info.key_value = [ds.KeyValue(rsa_key_value=ds.RSAKeyValue(modulus=ds.Modulus(text="AQAB"), exponent=ds.Exponent(text="AQAB")))]
         kds.append(kd)
     ed.idpsso_descriptor[0].key_descriptor = kds
     return str(ed)
@@ -424,7 +439,7 @@ def place_doc(place, outer, okey, inner):
 
 def doc_clients(ctx):
     cls = []
-    for lname, only_md in ([("enc+sign", True), ("none", True), ("none", False)] if ctx.quick else
+    for lname, only_md in ([("enc+sign", True), ("none", True), ("none", False), ("sign+keyname", True), ("keyname+sign", False)] if ctx.quick else
                            [(l, o) for l in LAYOUTS for o in (True, False)] + [("signing", None)]):
         cls.append(CL("doc:%s:%s" % (lname, only_md), std_fed(lname), only_md=only_md))
     cls.append(CL("doc:signing:was", std_fed("signing"), was=True))
@@ -480,7 +495,8 @@ def unit_documents(ctx):
 def direct_clients(ctx):
     cls = [CL("direct:signing:on", std_fed("signing")),
            CL("direct:none:off", std_fed("none"), only_md=False), CL("direct:nometadata:off", [], only_md=False),
-           CL("direct:none:on", std_fed("none"))]
+           CL("direct:none:on", std_fed("none")),
+           CL("direct:keyname+sign:off", std_fed("keyname+sign"), only_md=False), CL("direct:sign+keyname:on", std_fed("sign+keyname"))]
     if not ctx.quick:
         cls += [CL("direct:%s:%s" % (l, o), std_fed(l), only_md=o) for l in ("two-descriptors", "enc+sign", "useless", "encryption-only") for o in (True, False)]
         cls.append(CL("direct:signing:off", std_fed("signing"), only_md=False))
@@ -575,7 +591,8 @@ def message_xml(kind, e):
 def unit_messages(ctx):
     cases = []
     cls = [CL("msg:signing:on", std_fed("signing")), CL("msg:enc+sign:on", std_fed("enc+sign")), CL("msg:signing:off", std_fed("signing"), only_md=False),
-           CL("msg:none:off", std_fed("none"), only_md=False)]
+           CL("msg:none:off", std_fed("none"), only_md=False), CL("msg:sign+keyname:off", std_fed("sign+keyname"), only_md=False),
+           CL("msg:useless-keyname+sign+enc:on", std_fed("useless-keyname+sign+enc"))]
     for kind, iname, key, embed in itertools.product(sorted(D.MESSAGES), ["idp1", "idp2", "unknown", "absent", "idp1-ws"], ["idp", "idp2", "other"], [True, None]):
         e = E(SPELL[iname], key, embed=embed)
         for cl in cls:
@@ -613,7 +630,7 @@ def history_clients():
         CL("h0:std", [(IDP_ID, [("signing", ["idp"])]), (IDP2_ID, [("signing", ["idp2"])])]),
         CL("h1:swapped", [(IDP_ID, [("signing", ["idp2"])]), (IDP2_ID, [("signing", ["idp"])])]),
         CL("h2:other-off", [(IDP_ID, [("signing", ["other"])]), (IDP2_ID, [])], only_md=False),
-        CL("h3:std-again", [(IDP_ID, [("signing", ["idp"])]), (IDP2_ID, [("signing", ["idp2"])])]),
+        CL("h3:std-again", [(IDP_ID, [("signing", ["idp"]), ("signing", [])]), (IDP2_ID, [(None, []), ("signing", ["idp2"])])]),
         CL("h4:only-idp2", [(IDP2_ID, [("signing", ["other"]), ("encryption", ["idp"])])]),
     ]
 
